@@ -79,6 +79,9 @@ def check_outbound(spec, exp, recs, err) -> List[tuple]:
             out.append(("parameter_missing", f"{k} not transmitted (expected {want!r})"))
         elif got != [want]:
             out.append(("parameter_value", f"{k} = {got!r}, expected {want!r}"))
+    for k, wants in getattr(exp, "multi", {}).items():
+        if params.get(k) != wants:
+            out.append(("parameter_value", f"sequence-valued {k}: transmitted {params.get(k)!r}, the caller passed {wants!r}"))
     for k, want in exp.decimals.items():
         got = params.get(k)
         if got is None:
